@@ -154,6 +154,26 @@ def escCount (k : Bytes) : Nat := k.countP shouldEscape
 (`mapKeyFork.forkString`): `fork_` ++ makeKeySafe(k) -/
 def mapForkDir (k : Bytes) : Bytes := sForkU ++ pathEscape k
 
+/-! ## A lookup that folds case (NOT the code's: a negative model)
+
+`getFork` with the fork name compared up to ASCII case (what
+`strings.EqualFold` does on ASCII text), the numeric shortcut left as it is. -/
+
+def foldByte (c : UInt8) : UInt8 := if 0x41 ≤ c && c ≤ 0x5A then c + 0x20 else c
+
+def foldEq (a b : Bytes) : Bool := a.map foldByte == b.map foldByte
+
+def findNameFold (names : List Bytes) (index : Bytes) : Option Nat :=
+  match names with
+  | [] => none
+  | n :: rest =>
+    if !n.isEmpty && foldEq n index then some 0 else (findNameFold rest index).map (· + 1)
+
+def getForkFold (names : List Bytes) (index : Bytes) : Option Nat :=
+  match numericIndex names index with
+  | some i => if nameMatches (names.getD i []) index then some i else findNameFold names index
+  | none => findNameFold names index
+
 /-! ## A router that remembers (NOT the code's: a negative model)
 
 A refresh cycle that memoises the (node, fork) lookup under the plain
